@@ -105,7 +105,7 @@ def parse_recipe(path, name):
             elif key == "@rules":
                 item.rules = set(rest.split())
             elif key == "@opt":
-                for kv in rest.split():
+                for kv in shlex.split(rest):
                     k, _, v = kv.partition("=")
                     item.opts[k] = v
             elif key == "@label":
